@@ -330,6 +330,19 @@ func runC12(ctx *Ctx) {
 				// both answers are definite and they differ
 				cause = "definite-answer-differs"
 			}
+			if why == "result-not-covered" && cause == "definite-answer-differs" && p.fn == "SetHasElementFunc" && len(p.ws) == 2 && len(p.os) == 2 {
+				// sethaselement is Value.HasElement: is it the recorded C01 defect (a definite False for a
+				// candidate element that is known at the top and holds an unknown inside) on this very input?
+				try(func() {
+					set, _ := p.ws[0].Unmark()
+					needle, _ := p.ws[1].UnmarkDeep()
+					if set.IsKnown() && !set.IsNull() && needle.IsKnown() && !needle.IsNull() && !needle.IsWhollyKnown() && set.Type().IsSetType() {
+						if h := set.HasElement(needle); h.IsKnown() && h.False() && p.rw.False() {
+							cause = "haselement-false-for-partly-unknown-element"
+						}
+					}
+				})
+			}
 			ctx.Fail(Failure{Site: "sound", Sig: why + ":" + cause + ":" + p.fn,
 				What:    fmt.Sprintf("%s: the concrete call gives %s, the weakened call does not admit it (%s)", p.fn, p.ro.GoString(), why),
 				Input:   key,
